@@ -24,7 +24,7 @@ def tasks(tier):
             ts.append(Task('verifHarness_C08_N', [kind, n], {'x25_uf': False}))
     for shape, (sn, se) in enumerate(SIZES):
         ts.append(Task('verifHarness_C08_D', [1, shape, sn]))
-        lens = sorted({1, 2, sn - 1, sn, se, se + 1, se + 2}) if tier == 'quick' else list(range(0, se + 3))
+        lens = sorted({0, 1, 2, sn - 1, sn, se, se + 1, se + 2}) if tier == 'quick' else list(range(0, se + 3))
         for n in lens:
             if n >= 0:
                 ts.append(Task('verifHarness_C08_D', [2, shape, n]))
@@ -37,6 +37,7 @@ def tasks(tier):
             ts.append(Task('verifHarness_C08_fix', [2, shape, 0, sl], pkg='.'))
             ts.append(Task('verifHarness_C08_fix', [2, shape, 1, sl], pkg='.'))
             ts.append(Task('verifHarness_C08_fix', [2, shape, 2, sl], pkg='.'))
+            ts.append(Task('verifHarness_C08_fix', [2, shape, 3, sl], pkg='.'))
     return ts
 
 
@@ -46,8 +47,8 @@ def required_reach(tier):
 
 def bounds(tier):
     return {'no_dialect': 'v1 / v2 / signed v2, payload lengths 0,1,3,255 (quick) or 0,1,2,3,9,64,254,255 (thorough), every byte symbolic',
-            'fixframe': 'received frame with arbitrary header and stale checksum/signature, message = arbitrary value of each harness shape (the edit), FixFrame, forward, next hop with InKey = OutKey: v1, v2 unsigned, v2 signed with an outgoing key, v2 unsigned on a node that has an outgoing key (next hop without a key); the forwarded stream holds nothing but the frame',
-            'dialect': 'harness dialect (4 shapes); v1 at the exact base length; v2 payload lengths around base/extended size and +1,+2 (quick) / '
+            'fixframe': 'received frame with arbitrary header and stale checksum/signature, message = arbitrary value of each harness shape (the edit), FixFrame, forward, next hop with InKey = OutKey: v1, v2 unsigned, v2 signed with an outgoing key, v2 unsigned on a node that has an outgoing key (next hop without a key), a signed frame whose checksum is already right (re-signing); the forwarded stream holds nothing but the frame',
+            'dialect': 'harness dialect (4 shapes); v1 at the exact base length; v2 payload lengths 0,1,2 and around base/extended size and +1,+2 (quick) / '
                        'every length 0..extended+2 (thorough); every payload byte symbolic (so canonical, zero-padded, '
                        'bytes-after-NUL and unknown-trailing-bytes encodings are all included); checksum = spec value; signed v2 frames (arbitrary signature block, hops without a key) at the base and extended+1 lengths (quick) / every length (thorough)'}
 
